@@ -568,7 +568,135 @@ def r3_compositions(repo: Repo, rep):
             rep.check(R, not gates, fn.site(), fn.fq, "no order-sensitive space equality gates the chain (variables are matched by name)", str(gates[:2]), f"order-sensitive gate {gates[:1]}")
 
 
+VIEW_OPS = ("as_tensor", "_t", "T", "mT", "real")
+VIEW_CALLS = ("unsqueeze", "squeeze", "view", "reshape", "transpose", "permute", "expand", "expand_as", "narrow", "flatten", "contiguous", "view_as", "detach", "to", "float", "double", "select", "t", "movedim", "swapaxes", "unflatten", "chunk", "split")
+
+
+def _may_alias_input(fi, pname):
+    """local names that may share storage with the caller's tensor: the parameter, Points / tensor views of it, the sanitiser's result (flow-insensitive)"""
+    alias = {pname}
+
+    def is_alias(v):
+        while True:
+            if isinstance(v, ast.Name):
+                return v.id in alias
+            if isinstance(v, ast.Attribute) and v.attr in VIEW_OPS:
+                v = v.value
+            elif isinstance(v, ast.Subscript):
+                v = v.value
+            elif isinstance(v, ast.Call) and isinstance(v.func, ast.Attribute) and v.func.attr in VIEW_CALLS:
+                v = v.func.value
+            elif isinstance(v, ast.Call) and dump(v.func) == "self._fix_points_order" and v.args:
+                v = v.args[0]
+            else:
+                return False
+    changed = True
+    while changed:
+        changed = False
+        for n in ast.walk(fi.node):
+            if isinstance(n, ast.Assign) and is_alias(n.value):
+                for t in n.targets:
+                    if isinstance(t, ast.Name) and t.id not in alias:
+                        alias.add(t.id)
+                        changed = True
+    return alias, is_alias
+
+
+def r9_input_untouched(repo: Repo, rep):
+    R = rep.rule("R-C08-9", "a model's forward never writes into a tensor that may be the caller's: no x.op_(), `x += ..`, `x[..] = ..` on the input, the sanitised points or views of them", floor=10,
+                 why="_fix_points_order returns the caller's own Points when the order already fits: an in-place unsqueeze_ / add_ changes the data a second evaluation (or another model) receives")
+    model = repo.cls("models.model.Model")
+    n = 0
+    for ci in repo.subclasses(model, strict=True):
+        fi = ci.methods.get("forward")
+        if fi is None or len(fi.params) < 2:
+            continue
+        n += 1
+        rep.saw(fi)
+        alias, is_alias = _may_alias_input(fi, fi.params[1])
+        bad = []
+        for x in ast.walk(fi.node):
+            if isinstance(x, ast.Call) and isinstance(x.func, ast.Attribute) and x.func.attr.endswith("_") and not x.func.attr.startswith("_") and is_alias(x.func.value):
+                bad.append(dump(x)[:60])
+            if isinstance(x, ast.AugAssign) and is_alias(x.target):
+                bad.append(dump(x)[:60])
+            if isinstance(x, ast.Assign):
+                for t in x.targets:
+                    if isinstance(t, ast.Subscript) and is_alias(t.value):
+                        bad.append(dump(x)[:60])
+        rep.check(R, not bad, fi.site(), fi.fq, "input-aliased tensors are only read", str(bad[:2]), f"{ci.name}.forward writes {bad[:2]}")
+    if n == 0:
+        rep.undecided(R, "src/torchphysics/models", "-", "forward methods", "none found")
+
+
+def r10_parallel_spaces(repo: Repo, rep):
+    R = rep.rule("R-C08-10", "Parallel's input space is the ordered union of its parts' input spaces (every variable of every part, each once) and its output space their product - "
+                 "by partial evaluation of the constructor on parts with overlapping inputs", floor=3,
+                 why="dropping a part's input space because it shares ONE variable with an earlier part loses its other variables: a valid input is rejected or a part never sees its variable")
+    from collections import OrderedDict
+    from ..absdom.listeval import Evaluator, NotEval, Obj, Opaque, UNKNOWN
+
+    class SpaceV(OrderedDict):
+        """model of Space: `*` appends the variables of the right operand that are new (equal names merge), `-` removes the variables of the right operand (Counter subtraction of equal dimensions)"""
+
+        def le_binop(self, op, other, reflected):
+            if not isinstance(other, dict):
+                raise NotEval("space arithmetic with a non-space")
+            a, b = (other, self) if reflected else (self, other)
+            if isinstance(op, ast.Mult) or isinstance(op, ast.Add):
+                out = SpaceV(a)
+                for k, d in b.items():
+                    out[k] = out.get(k, 0) + d if isinstance(op, ast.Add) and k in out else out.get(k, d)
+                return out
+            if isinstance(op, ast.Sub):
+                return SpaceV((k, d - b.get(k, 0)) for k, d in a.items() if d - b.get(k, 0) > 0)
+            raise NotEval("space operator")
+    ci = repo.cls("models.model.Parallel")
+    init = ci.methods.get("__init__")
+    if init is None:
+        raise AnalysisError("Parallel.__init__ vanished")
+    rep.saw(init)
+    va = init.node.args.vararg.arg if init.node.args.vararg else None
+    if va is None:
+        rep.undecided(R, init.site(), init.fq, "Parallel(*models)", "no *models parameter")
+        return
+    cases = [
+        [({"x": 2, "t": 1}, {"u": 1}), ({"t": 1, "p": 1}, {"v": 2})],
+        [({"x": 1}, {"u": 1}), ({"y": 1}, {"v": 1}), ({"x": 1, "y": 1, "z": 3}, {"w": 1})],
+        [({"a": 1, "b": 1}, {"u": 1}), ({"b": 1, "a": 1}, {"v": 1})],
+    ]
+    for parts in cases:
+        got = {}
+
+        def on_call(e, name, args, kws, ev, f, got=got):
+            if name == "Space" and args is not None and len(args) == 1 and isinstance(args[0], dict):
+                return SpaceV(args[0])
+            if name.endswith("__init__") and "super" in name and args is not None:
+                got["in"], got["out"] = (list(args) + [kws.get("input_space"), kws.get("output_space")])[:2] if len(args) >= 2 else (kws.get("input_space", args[0] if args else None), kws.get("output_space"))
+                return Opaque("none")
+            if name.split(".")[-1] in ("ModuleList",):
+                return Opaque("modules")
+            return None
+        models = tuple(Obj(f"m{i}", {"input_space": SpaceV(a), "output_space": SpaceV(b)}) for i, (a, b) in enumerate(parts))
+        Evaluator(None, on_call).run(init.node.body, {"self": Opaque("self"), va: models})
+        want_in, want_out = OrderedDict(), OrderedDict()
+        for a, b in parts:
+            for k, d in a.items():
+                want_in.setdefault(k, d)
+            for k, d in b.items():
+                want_out.setdefault(k, d)
+        label = f"parts with inputs {[list(a) for a, b in parts]}: input space {list(want_in)}, output space {list(want_out)}"
+        gi, go = got.get("in"), got.get("out")
+        if not isinstance(gi, dict) or not isinstance(go, dict):
+            rep.undecided(R, init.site(), init.fq, label + " (evaluable)", f"{gi!r} / {go!r}"[:100])
+            continue
+        rep.check(R, list(gi.items()) == list(want_in.items()) and list(go.items()) == list(want_out.items()), init.site(), init.fq, label, f"input {list(gi.items())}, output {list(go.items())}",
+                  f"Parallel spaces {list(gi)} / {list(go)}")
+
+
 def run(repo: Repo, rep):
+    r9_input_untouched(repo, rep)
+    r10_parallel_spaces(repo, rep)
     from .generic import g_arg_constructor_parameters
     g_arg_constructor_parameters(repo, rep, lambda m: ".models." in m and ".deeponet" not in m, floor=8,
                                  why="a model that ignores its declared spaces or hyper-parameters is not the function of named variables it was configured to be")
